@@ -77,6 +77,35 @@ func runRepr(c Case) (out Out) {
 	return
 }
 
+// Kind "consts": the constants of consistenthash.go as the BINARY has them — TopWeight (exported), minReplicas
+// (the number of strings Add hashes on a ring created with replicas 0), prime (the prefix of innerRepr) —
+// for tools/c15consts.py when it cannot read them off the source text.
+func runConsts(c Case) (out Out) {
+	out.ID = c.ID
+	var log [][]byte
+	rec := func(data []byte) uint64 {
+		log = append(log, append([]byte(nil), data...))
+		return 0
+	}
+	h := hash.NewCustomConsistentHash(0, rec)
+	h.Add("a")
+	minR := len(log)
+	h.Add("b")
+	log = nil
+	h.Get("k")
+	pr := ""
+	if len(log) == 2 {
+		for _, ch := range string(log[1]) {
+			if ch < '0' || ch > '9' {
+				break
+			}
+			pr += string(ch)
+		}
+	}
+	out.Rx = [][]string{{strconv.Itoa(hash.TopWeight), strconv.Itoa(minR), pr}}
+	return
+}
+
 func runHashFn(c Case) (out Out) {
 	out.ID = c.ID
 	for _, d := range c.Data {
